@@ -135,8 +135,9 @@ class Program:
                 except SyntaxError as e:
                     raise AnalysisError(f"{name}: syntax error {e}")
                 self.modules[name] = ModuleInfo(name, _normalise(tree), src)
-        from .inline import close_partials, expand_dispatch_tables, expand_value_lookups, expand_helper_comprehensions, propagate_record_fields, fold_unpack_temporaries, inline_unknown_helpers, propagate_attribute_aliases, unroll_literal_loops
+        from .inline import expand_star_calls, close_partials, expand_dispatch_tables, expand_value_lookups, expand_helper_comprehensions, propagate_record_fields, fold_unpack_temporaries, inline_unknown_helpers, propagate_attribute_aliases, unroll_literal_loops
 
+        self.star_calls = expand_star_calls({name: m.tree for name, m in self.modules.items()})
         self.folded_unpacks = fold_unpack_temporaries({name: m.tree for name, m in self.modules.items()})
         self.dispatch_tables = expand_dispatch_tables({name: m.tree for name, m in self.modules.items()})
         self.value_lookups = expand_value_lookups({name: m.tree for name, m in self.modules.items()})
@@ -530,6 +531,15 @@ class _Normaliser(ast.NodeTransformer):
         return n
 
 
+# parameter lists of the pygfunction correlations the package calls (pygfunction/pipes.py of the pinned environment, read there):
+# calls of them by keyword are read as the positional calls the rules were written against.  Part of the trusted base.
+EXTERNAL_SIGNATURES = {
+    "convective_heat_transfer_coefficient_circular_pipe": ("m_flow_pipe", "r_in", "mu_f", "rho_f", "k_f", "cp_f", "epsilon"),
+    "convective_heat_transfer_coefficient_concentric_annulus": ("m_flow_pipe", "r_a_in", "r_a_out", "mu_f", "rho_f", "k_f", "cp_f", "epsilon"),
+    "conduction_thermal_resistance_circular_pipe": ("r_in", "r_out", "k_p"),
+}
+
+
 def _canonical_calls(trees) -> None:
     """argument passing style is normalised for calls to functions / methods / constructors of the package:
     every argument that can be positional is positional (keywords naming the next parameters are moved over), the
@@ -568,6 +578,9 @@ def _canonical_calls(trees) -> None:
     for t in trees:
         collect(t.body, None)
     sigs.pop("__init__", None)
+    for nm_, ps_ in EXTERNAL_SIGNATURES.items():
+        if nm_ not in sigs:
+            sigs[nm_] = [list(ps_)]
 
     class C(ast.NodeTransformer):
         def visit_Call(self, n):
